@@ -93,7 +93,7 @@ func init() {
 		notify bool
 	}{{0, false}, {1, true}, {2, true}} {
 		cfg := cfg
-		alphabet := []string{"P.publish", "X.publish-no-token", "C1.link", "C1.unlink", "C2.monitor", "C2.demonitor", "P.unregister", "P.register", "P.kill", "C1.normal"}
+		alphabet := []string{"P.publish", "X.publish-no-token", "C1.link", "C1.unlink", "C2.monitor", "C2.demonitor", "P.unregister", "P.register", "P.kill", "C1.normal", "X.register-taken", "X.exit"}
 		spec := harn.OpSeqSpec{Alphabet: alphabet, DepthQuick: 5, DepthThorough: 7, NoDedupQuick: 3, NoDedupThorough: 4}
 		spec.Run = func(hist []int, fail func(kind, format string, a ...any)) string {
 			key := ""
@@ -116,6 +116,7 @@ func init() {
 				}
 				// model
 				registered, aliveP, aliveC1 := true, true, true
+				aliveX := true
 				subs := map[string]bool{} // C1 (link), C2 (monitor)
 				var published []string
 				expGot := map[string][]string{}
@@ -173,7 +174,29 @@ func init() {
 							fail("publish-result", "after %v: SendEvent on an unregistered event returned nil", here)
 							return
 						}
+					case what == "register-taken":
+						// a stranger tries to register the event the producer owns: refused, and without any effect,
+						// not even when the stranger terminates later
+						if !aliveX || !registered {
+							return
+						}
+						var err error
+						w.Do("X", func(p *probe) error { _, err = p.RegisterEvent("ev", gen.EventOptions{}); return nil })
+						if err == nil {
+							fail("register-result", "after %v: a second process registered the event that is owned by the producer", here)
+							return
+						}
+					case what == "exit":
+						if !aliveX {
+							return
+						}
+						w.nsetup++
+						w.Setup(fmt.Sprintf("xend%d", w.nsetup), func() { w.n.Send(w.pids["X"], doMsg{func(p *probe) error { return gen.TerminateReasonNormal }}) })
+						aliveX = false
 					case what == "publish-no-token":
+						if !aliveX {
+							return
+						}
 						var err1, err2 error
 						w.Do("X", func(p *probe) error {
 							err1 = p.SendEvent("ev", gen.Ref{}, "forged-zero")
@@ -298,7 +321,7 @@ func init() {
 					}
 				}
 				key = fmt.Sprintf("reg=%v P=%v C1=%v subs=%v/%v buf=%v", registered, aliveP, aliveC1, subs["C1"], subs["C2"], lastN(published, cfg.buffer) != nil && len(lastN(published, cfg.buffer)) > 0)
-				key += fmt.Sprintf(" nbuf=%d", len(lastN(published, cfg.buffer)))
+				key += fmt.Sprintf(" nbuf=%d X=%v", len(lastN(published, cfg.buffer)), aliveX)
 			}))
 			for _, f := range fails {
 				fail(f.Kind, "%s", f.Detail)
